@@ -65,11 +65,11 @@ def plan_contents(cfg, st, target, rng):
     if target < base:
         return None
     # many OIDs of one content length + one tunable OID
-    for c0 in (rng.choice([9, 14, 20, 33, 60]), 14, 9, 3):
+    for c0 in (rng.choice([9, 14, 20, 33, 60, 130, 150, 260]), 14, 9, 3):
         per = vb_size(c0)
         k = max(0, (target - base) // per + 1)
         for kk in range(k, max(-1, k - 4), -1):
-            for c in range(1, 125):
+            for c in range(1, 140):
                 cs = [c0] * kk + [c]
                 if msg_size(cfg, st, cs, 4, 4) == target:
                     rng.shuffle(cs)
